@@ -44,11 +44,12 @@ def check(unit):
             continue
         fn, src = b["fn"], b["proved_in"]
         assumed = _after_sig(unit, r"external_body\].*\bfn %s\(" % re.escape(fn))
-        proved = _after_sig(src, r"\bfn bridge_%s\(" % re.escape(fn))
+        bname = b.get("bridge", "bridge_" + fn)
+        proved = _after_sig(src, r"\bfn %s\(" % re.escape(bname))
         if assumed is None or proved is None:
             bad.append("bridge for %s: contract not found (%s in %s, bridge_%s in %s)" % (fn, fn, unit, fn, src))
         elif assumed != proved:
-            bad.append("assumed contract of trusted take `%s` in %s differs from the contract of bridge_%s proved in %s" % (fn, unit, fn, src))
+            bad.append("assumed contract of trusted take `%s` in %s differs from the contract of %s proved in %s" % (fn, unit, bname, src))
         else:
-            notes.append("trusted take `%s`: its assumed contract is the contract of bridge_%s, proved in unit %s (texts identical)" % (fn, fn, src))
+            notes.append("trusted take `%s`: its assumed contract is the contract of %s, proved in unit %s (texts identical)" % (fn, bname, src))
     return notes, bad
